@@ -423,9 +423,9 @@ impl ZipFileData {
     }
 
     pub fn zip64_extension(&self) -> bool {
-        self.uncompressed_size > 0xFFFFFFFF
-            || self.compressed_size > 0xFFFFFFFF
-            || self.header_start > 0xFFFFFFFF
+        self.uncompressed_size >= 0xFFFFFFFF
+            || self.compressed_size >= 0xFFFFFFFF
+            || self.header_start >= 0xFFFFFFFF
     }
 
     pub fn version_needed(&self) -> u16 {
